@@ -32,7 +32,7 @@ example : Gen.Kxps.fireCond = "v.lastSample.Add(v.interval).After(now)" := by de
 example : Gen.Kxps.diffExpr = "int64(nbRequests - v.count)" := by decide
 example : Gen.Kxps.zeroCond = "diff <= 0" := by decide
 example : Gen.Kxps.msDivisor = 1000000 ∧ Gen.Kxps.rateScale = 1000 := by decide
-example : Gen.Kxps.kbpsMul = 8 ∧ Gen.Kxps.kbpsDiv = 1000 ∧ Gen.Kxps.krpsPlain = true := by decide
+example : Gen.Kxps.kbpsMul = 8 ∧ Gen.Kxps.kbpsDiv = 1000 ∧ Gen.Kxps.kbpsUniform = true ∧ Gen.Kxps.krpsPlain = true := by decide
 example : Gen.Kxps.startedGuardAll = true := by decide
 
 /-! ### window_rate -/
